@@ -1,8 +1,239 @@
 import Solvor.Common.Proto
+import Solvor.Gen.PathConsts
 import Solvor.Path.Model
-/-! Path: line-protocol handler. One request line in, one reply line out. -/
-namespace Solvor.Path
+/-!
+Path: line-protocol handler.
 
-def handle (line : String) : String := "unimplemented " ++ line
+`["graph", n, edges, queries]` — `edges = [[u, v, w], …]` (scaled integer weights), `queries` a list
+of sub-requests answered in order (reply = list of sub-replies):
+
+* `["ref", s]` → `[status, dist, negcert]`: the Bellman-Ford model from `s` (`bellman_ford_correct`:
+  exact distances unless UNBOUNDED); on UNBOUNDED `negcert = [pathToCycle, cycle, negCycleCert verdict]`.
+* `["hop", s]` → hop distances (the same model on unit weights).
+* `["fwref", directed]` → `[unbounded, matrix|null, negcertOK|null]`: Bellman-Ford from every source on
+  the (symmetrised) edge list.
+* `["chk", unit, s, T, bound|null, path|null, cost|null]` → `[distCert, pathOK, pathCost, infeasOK]`:
+  the verified checkers on an implementation answer, the potential being the reference distances;
+  `infeasOK` = `unreachCert` (bound null) or `lowerCert … (bound+1)` (`max_cost = bound`).
+* mirrors: `["dijkstra", s, T, maxIter|null, maxCost|null]`, `["astar", s, T, h, wnum, wden, maxIter|null, maxCost|null]`
+  → `[status, path, cost, rerelax, certOK|null, fuelOut]`; `["bfs"|"dfs", s, T|null, maxIter|null]` →
+  `[status, path, cost, visited(sorted), certOK|null]`; `["bf", s, target|null]` → `[status, dist, path, cost]`;
+  `["fw", directed]` → `[status, matrix|null]`; `["dall", s]` → dist|null.
+
+`["grid", rows, cols, cells, blocked, costs, scale, eight, [sr,sc], [tr,tc], hname, wnum, wden, maxIter|null,
+  implPath|null, implCost|null]` → see `gridCase`.
+-/
+namespace Solvor.Path
+open Solvor.Proto
+open Solvor.Gen (Status)
+
+def toEdges (v : Val) : Option (List (Edge Int)) := do
+  let rows ← v.toIntss?
+  rows.mapM fun r =>
+    match r with
+    | [u, v, w] => if u < 0 || v < 0 then none else some (u.toNat, v.toNat, w)
+    | _ => none
+
+def ofTab (t : Tab Int) : Val := Val.arr (t.map (Val.ofOpt Val.int))
+def ofMat (m : Mat) : Val := Val.arr (m.map ofTab)
+def ofPath (p : Option (List Nat)) : Val := Val.ofOpt Val.ofNats p
+def ofOInt (c : Option Int) : Val := Val.ofOpt Val.int c
+
+def unitE (E : List (Edge Int)) : List (Edge Int) := E.map fun e => (e.1, e.2.1, 1)
+def symE (E : List (Edge Int)) : List (Edge Int) := E.flatMap fun e => [e, (e.2.1, e.1, e.2.2)]
+
+def finiteNodes (d : Tab Int) : List Nat := (List.range d.length).filter fun v => (look d v).isSome
+
+/-- negative-cycle certificate for an UNBOUNDED Bellman-Ford run: `(path from s to the cycle, cycle, verdict)` -/
+def negCert (n : Nat) (E : List (Edge Int)) (s : Nat) : Option (List Nat × List Nat × Bool) :=
+  let st := bfRounds E (n - 1) (bfInit n s)
+  match negCycleOf n E st with
+  | none => none
+  | some cyc =>
+    let x := cyc.headD 0
+    let p := ((bfs n E s [x] false (n + 1)).path).getD []
+    some (p, cyc, negCycleCert E s p cyc)
+
+def sortNats (l : List Nat) : List Nat := l.mergeSort (· ≤ ·)
+
+def natOr (v : Val) (dflt : Int) : Option Nat :=
+  match v with
+  | Val.null => some dflt.toNat
+  | _ => v.toNat?
+
+def subQuery (n : Nat) (E : List (Edge Int)) (cmd : String) (args : List Val) : Option Val :=
+  match cmd, args with
+  | "ref", [s] => do
+    let s ← s.toNat?
+    let r := bellmanFord n E s none
+    let nc := if r.status = .UNBOUNDED then
+        match negCert n E s with
+        | some (p, cyc, ok) => Val.arr [Val.ofNats p, Val.ofNats cyc, Val.bool ok]
+        | none => Val.arr [Val.ofNats [], Val.ofNats [], Val.bool false]
+      else Val.null
+    pure (Val.arr [Val.str r.status.name, ofTab r.dist, nc])
+  | "hop", [s] => do
+    let s ← s.toNat?
+    pure (ofTab (bellmanFord n (unitE E) s none).dist)
+  | "fwref", [d] => do
+    let d ← d.toBool?
+    let E' := if d then E else symE E
+    let runs := (List.range n).map fun i => bellmanFord n E' i none
+    match (List.range n).find? (fun i => (bellmanFord n E' i none).status = .UNBOUNDED) with
+    | some i =>
+      let ok := match negCert n E' i with | some (_, _, ok) => ok | none => false
+      pure (Val.arr [Val.bool true, Val.null, Val.bool ok])
+    | none => pure (Val.arr [Val.bool false, ofMat (runs.map (·.dist)), Val.null])
+  | "chk", [u, s, T, bound, path, cost] => do
+    let u ← u.toBool?
+    let s ← s.toNat?
+    let T ← T.toNats?
+    let bound ← bound.toOpt? Val.toInt?
+    let path ← path.toOpt? Val.toNats?
+    let cost ← cost.toOpt? Val.toInt?
+    let E' := if u then unitE E else E
+    let r := bellmanFord n E' s none
+    let pot := r.dist
+    let okRef := r.status != .UNBOUNDED
+    let (dc, po, pc) := match path, cost with
+      | some p, some c => (okRef && distCert E' s T pot p c, pathOK E' s T p c, pathCost E' p)
+      | some p, none => (false, false, pathCost E' p)
+      | _, _ => (false, false, none)
+    let inf := okRef && (match bound with
+      | none => unreachCert E' s T (finiteNodes pot)
+      | some b => lowerCert E' s T pot (b + 1))
+    pure (Val.arr [Val.bool dc, Val.bool po, ofOInt pc, Val.bool inf])
+  | "dijkstra", [s, T, mi, mc] => do
+    let s ← s.toNat?
+    let T ← T.toNats?
+    let mi ← natOr mi Solvor.Gen.Path.dijkstraMaxIter
+    let mc ← mc.toOpt? Val.toInt?
+    let r := dijkstra n E s T mi mc
+    pure (hReply n E s T mc r)
+  | "astar", [s, T, h, wn, wd, mi, mc] => do
+    let s ← s.toNat?
+    let T ← T.toNats?
+    let h ← h.toInts?
+    let wn ← wn.toInt?
+    let wd ← wd.toInt?
+    let mi ← natOr mi Solvor.Gen.Path.astarMaxIter
+    let mc ← mc.toOpt? Val.toInt?
+    let r := astar n E s T h wn wd mi mc
+    pure (hReply n E s T mc r)
+  | "bfs", [s, T, mi] => do
+    let s ← s.toNat?
+    let T ← T.toOpt? Val.toNats?
+    let mi ← natOr mi Solvor.Gen.Path.bfsMaxIter
+    pure (sReply n E s T (bfs n E s (T.getD []) T.isNone mi))
+  | "dfs", [s, T, mi] => do
+    let s ← s.toNat?
+    let T ← T.toOpt? Val.toNats?
+    let mi ← natOr mi Solvor.Gen.Path.dfsMaxIter
+    pure (sReply n E s T (dfs n E s (T.getD []) T.isNone mi))
+  | "bf", [s, t] => do
+    let s ← s.toNat?
+    let t ← t.toOpt? Val.toNat?
+    let r := bellmanFord n E s t
+    pure (Val.arr [Val.str r.status.name, ofTab r.dist, ofPath r.path, ofOInt r.cost])
+  | "fw", [d] => do
+    let d ← d.toBool?
+    let r := floydWarshall n E d
+    pure (Val.arr [Val.str r.status.name, Val.ofOpt ofMat r.mat])
+  | "dall", [s] => do
+    let s ← s.toNat?
+    pure (Val.ofOpt ofTab (dijkstraAll n E s))
+  | _, _ => none
+where
+  hReply (n : Nat) (E : List (Edge Int)) (s : Nat) (T : List Nat) (mc : Option Int) (r : HRes Int) : Val :=
+    let cert : Val := match r.status, r.path, r.cost with
+      | .OPTIMAL, some p, some c => Val.bool (distCert E s T (cappedPot n r.g c) p c)
+      | .FEASIBLE, some p, some c => Val.bool (pathOK E s T p c)
+      | .INFEASIBLE, _, _ => if mc.isNone then Val.bool (unreachCert E s T r.closed) else Val.null
+      | _, _, _ => Val.null
+    Val.arr [Val.str r.status.name, ofPath r.path, ofOInt r.cost, Val.int r.rerelax, cert, Val.bool r.fuelOut]
+  sReply (_n : Nat) (E : List (Edge Int)) (s : Nat) (T : Option (List Nat)) (r : SRes) : Val :=
+    let E1 := unitE E
+    let cert : Val := match r.status, r.path, r.cost, T with
+      | .INFEASIBLE, _, _, some T => Val.bool (unreachCert E1 s T r.visited)
+      | _, some p, some c, some T => Val.bool (pathOK E1 s T p (c : Int))
+      | _, _, _, none => Val.bool (r.visited.contains s)
+      | _, _, _, _ => Val.null
+    Val.arr [Val.str r.status.name, ofPath r.path, Val.ofOpt (fun (c : Nat) => Val.int c) r.cost,
+      Val.ofNats (sortNats r.visited), cert]
+
+def ofZ2 (x : Z2) : Val := Val.arr [Val.int x.a, Val.int x.b]
+
+def tol : Rat := (1 : Rat) / 1000000000
+
+/-- reply `[exStatus, exOpt|null, exPath|null, exCert|null, mStatus, mPath|null, mCostBits|null, mFuel,
+  implPathCost|null, implEnds, implSumOK|null, implOptOK|null]` -/
+def gridCase (args : List Val) : Option Val :=
+  match args with
+  | [rows, cols, cells, blocked, costs, scale, eight, sp, tp, hname, wn, wd, mi, ipath, icost] => do
+    let rows ← rows.toNat?
+    let cols ← cols.toNat?
+    let cells ← cells.toIntss?
+    let blocked ← blocked.toInts?
+    let costs ← costs.toIntss?
+    let costs ← costs.mapM fun r => match r with | [a, b] => some (a, b) | _ => none
+    let scale ← scale.toNat?
+    let eight ← eight.toBool?
+    let sp ← sp.toNats?
+    let tp ← tp.toNats?
+    let hname ← hname.toStr?
+    let wn ← wn.toInt?
+    let wd ← wd.toInt?
+    let mi ← natOr mi Solvor.Gen.Path.astarGridMaxIter
+    let ipath ← ipath.toOpt? Val.toNatss?
+    let icost ← icost.toOpt? Val.toRat?
+    let G : Grid := ⟨rows, cols, cells, blocked, costs, scale, eight⟩
+    let (s, t) ← match sp, tp with
+      | [a, b], [c, d] => some (G.id a b, G.id c d)
+      | _, _ => none
+    let n := rows * cols
+    let E := G.edgesZ2
+    let ex := gridExact G s t
+    let exCert : Val := match ex.status, ex.path, ex.cost with
+      | .OPTIMAL, some p, some c => Val.bool (distCert E s [t] (cappedPotZ2 n ex.g c) p c)
+      | .INFEASIBLE, _, _ => Val.bool (unreachCert E s [t] ex.closed)
+      | _, _, _ => Val.null
+    let m := gridFloat G s t hname (Float.ofInt wn / Float.ofInt wd) mi
+    let cell (v : Nat) : Val := if cols = 0 then Val.ofNats [v, 0] else Val.ofNats [v / cols, v % cols]
+    let pv (p : Option (List Nat)) : Val := Val.ofOpt (fun (l : List Nat) => Val.arr (l.map cell)) p
+    let ip : Option (List Nat) := ipath.bind fun l => l.mapM fun rc => match rc with | [a, b] => some (G.id a b) | _ => none
+    let ipc : Option Z2 := ip.bind (pathCost E)
+    let ends : Bool := match ip with
+      | some p => p.head? == some s && p.getLast? == some t
+      | none => false
+    let sumOK : Val := match ipc, icost with
+      | some c, some q => Val.bool (withinTol q c scale tol)
+      | _, _ => Val.null
+    let optOK : Val := match ex.cost, icost with
+      | some c, some q => Val.bool (withinTol q c scale tol)
+      | _, _ => Val.null
+    pure (Val.arr [Val.str ex.status.name, Val.ofOpt ofZ2 ex.cost, pv ex.path, exCert,
+      Val.str m.status.name, pv m.path, Val.ofOpt (fun (c : Float) => Val.int c.toBits.toNat) m.cost, Val.bool m.fuelOut,
+      Val.ofOpt ofZ2 ipc, Val.bool ends, sumOK, optOK])
+  | _ => none
+
+def handle (line : String) : String :=
+  match request line with
+  | some ("graph", [n, edges, queries]) =>
+    match n.toNat?, toEdges edges, queries.toArr? with
+    | some n, some E, some qs =>
+      let rs := qs.map fun q =>
+        match q with
+        | Val.arr (Val.str cmd :: args) =>
+          match subQuery n E cmd args with
+          | some v => v
+          | none => Val.arr [Val.str "error", Val.str ("bad query " ++ cmd)]
+        | _ => Val.arr [Val.str "error", Val.str "bad query"]
+      (Val.arr rs).render
+    | _, _, _ => err "bad arguments"
+  | some ("grid", args) =>
+    match gridCase args with
+    | some v => v.render
+    | none => err "bad grid arguments"
+  | _ => err "bad request"
 
 end Solvor.Path
